@@ -38,7 +38,8 @@ RULE = ("each evaluation = one simulated execution of a real client against brok
         "distinct (workload kind, advertised table, sequence of (api, version) requests seen)")
 ENGINES = ("producer", "consumer", "group", "txn")
 FEATURES = ("txn_vs_produce", "read_committed_vs_fetch", "read_committed_vs_listoffsets",
-            "txn_vs_findcoordinator", "timestamp_search_vs_listoffsets", "disjoint", "hole")
+            "txn_vs_findcoordinator", "timestamp_search_vs_listoffsets", "disjoint", "hole",
+            "flexible_boundary")
 
 
 def random_table(r, need):
@@ -68,6 +69,18 @@ def gen_plan(seed, index, tier="quick"):
     if index % 4 == 3:
         feat = FEATURES[(index // 4) % len(FEATURES)]
         spec = {"feature": feat}
+        if feat == "flexible_boundary":
+            # a flexible-version exchange (request header v2, compact strings / arrays, tagged
+            # fields) whose string lengths sit on unsigned-varint boundaries, on a real connection
+            from props import conn_engine
+            n = r.randint(1, 4)
+            reqs = [{"kind": "delrec", "pad_to": r.choice([126, 127, 128, 129, 255, 16382, 16383, 16384]),
+                     "gap": 0, "delay": 0.0, "waiter": "await", "cancel_after": 0, "cuts": []}
+                    for _ in range(n)]
+            return {"format": 1, "prop": "C12", "report_as": PROP, "engine": "conn",
+                    "seed": scenario.subseed(seed, PROP, index), "index": index, "mode": "conn",
+                    "timeout_ms": 1000, "quirk": False, "corr_start": 0, "bytewise": False,
+                    "cluster": {"lat": [0.0001, 0.001], "chunk": "whole"}, "reqs": reqs, "fault": None}
         if feat == "disjoint":
             key = r.choice([3, 0, 1, 2, 10, 11])
             mine = sorted(CLIENT_VERSIONS[key])
@@ -132,6 +145,20 @@ def _run_base(kind, base):
 def execute(plan):
     if plan["engine"] == "c11feature":
         return execute_feature(plan)
+    if plan["engine"] == "conn":
+        from props import conn_engine
+        res = conn_engine.execute(plan)
+        vio = []
+        for v in res.get("violations", []):
+            d = dict(v[2]) if isinstance(v[2], dict) else {"data": v[2]}
+            d["pad_to"] = [q.get("pad_to") for q in plan["reqs"]]
+            if v[0] == "C11":
+                vio.append(["C11", v[1], d])
+            elif v[0] == "C12":
+                vio.append(["C11", "flexible_version_exchange_failed", dict(d, clause=v[1])])
+        res["violations"] = vio
+        res["nontrivial"] = True
+        return res
     kind = plan["kind"]
     control = dict(plan["base"])
     control["cluster"] = dict(control["cluster"])
